@@ -160,6 +160,11 @@ def run(tier, seed):
     rec = Recorder()
     thorough = tier != "quick"
     n_sets = 20 if thorough else 3
+    # fixed recipes first: the failure recorded (and replayed) for a sporadically failing id is then always the same one
+    rec.group("fixed recipes", f"{len(FIXED)} seed-independent data sets / starts that expose the sporadic optimiser failures deterministically",
+              "distinct = recipe")
+    for rcp in FIXED:
+        sc_mle(dict(rcp), rec)
     rec.group("seeded data sets: MLE fit from default / user / generating start, likelihood and equivariance clauses",
               f"{len(ALL)} families x {n_sets} data sets of 100..5000 points from regular parameter regions (data scale in [0.05, 20]) x 3 starts x scale factor in [0.4, 2.5]",
               "distinct = (family, start kind, data set); non-trivial = at least 50 distinct observations")
@@ -179,10 +184,6 @@ def run(tier, seed):
                 sc_mle(inp, rec)
             if name == "LogNormalNormFit":
                 sc_mle({"kind": "mle", "family": name, "theta_gen": th, "n": n, "data_seed": ds, "start_kind": "lognormal-mle", "c": 1.7}, rec)
-    rec.group("fixed recipes", f"{len(FIXED)} seed-independent data sets / starts that expose the sporadic optimiser failures deterministically",
-              "distinct = recipe")
-    for rcp in FIXED:
-        sc_mle(dict(rcp), rec)
     return rec.result()
 
 
